@@ -247,7 +247,7 @@ def make_mdp(view, ctx=None, dist=None, alias='fresh', explicit_lists=False, sto
     stored_dists: the model keeps ONE DictDistribution object per (state, action)
     and hands that object out on every call (see update_model_in_place)."""
     from msdm.core.mdp import QuickTabularMDP
-    from msdm.core.distributions import DictDistribution
+    from msdm.core.distributions import DictDistribution, DeterministicDistribution, UniformDistribution
     sk, ak, sid, aid = view.sk, view.ak, view.sid, view.aid
 
     def cb(*a):
@@ -259,7 +259,7 @@ def make_mdp(view, ctx=None, dist=None, alias='fresh', explicit_lists=False, sto
 
     if dist is None:
         # a quarter of the models write their distributions with distribution arithmetic (a pure function of the spec)
-        dist = 'mixture' if (view.n + 3 * len(view.spec['trans'])) % 4 == 0 else 'dict'
+        dist = ('mixture', 'dict', 'classes', 'dict')[(view.n + 3 * len(view.spec['trans'])) % 4]
 
     def build(pairs):
         """the distribution object for [(key, probability)]: a dict literal, or (dist='mixture') the way users write noisy
@@ -270,6 +270,12 @@ def make_mdp(view, ctx=None, dist=None, alias='fresh', explicit_lists=False, sto
                 part = DictDistribution({k: 1.0}) * p
                 d = part if d is None else (d | part)
             return d
+        if dist == 'classes':
+            # the other distribution classes a model function may return: a point mass, a uniform distribution
+            if len(pairs) == 1 and pairs[0][1] == 1.0:
+                return DeterministicDistribution(pairs[0][0])
+            if len({p for k, p in pairs}) == 1 and len(pairs) * pairs[0][1] == 1.0:
+                return UniformDistribution([k for k, p in pairs])
         return DictDistribution(dict(pairs))
 
     def next_state_dist(s, a):
@@ -281,9 +287,12 @@ def make_mdp(view, ctx=None, dist=None, alias='fresh', explicit_lists=False, sto
             return store[si, ai]
         return build([(sk[t], p) for t, p in holder['view'].Tall[si, ai]])
 
+    import numpy as _np
+    rtype = (float, _np.float64, float)[(view.n + view.spec['nA']) % 3]      # models written with numpy hand back numpy scalars
+
     def reward(s, a, ns):
         cb('reward', sid[s], aid[a], sid[ns])
-        return view.R[sid[s], aid[a], sid[ns]]
+        return rtype(view.R[sid[s], aid[a], sid[ns]])
 
     own_lists = {}
     uniform = len({tuple(view.A[s]) for s in view.A}) == 1
